@@ -203,6 +203,72 @@ def run_str(case):
     return out
 
 
+# ---- callers: the balance formatter and the fee path ----------------------------------------------------------------
+
+def callers_strategy(tier):
+    leaf = st.one_of(int_strategy(tier).map(lambda c: c["n"]), int_strategy(tier).map(lambda c: c["n"]),
+                     st.sampled_from([0, -1, 1, -COIN, None, "text", "n/a"]))
+    keys = st.sampled_from(["total", "available", "reserved", "claims", "supports", "tips", "delta", "note"])
+    inner = st.dictionaries(keys, leaf, min_size=1, max_size=4)
+    return st.fixed_dictionaries({"d": st.dictionaries(keys, st.one_of(leaf, inner, st.dictionaries(keys, st.one_of(leaf, inner), max_size=3)),
+                                                       min_size=1, max_size=5),
+                                  "fee": int_strategy(tier).map(lambda c: abs(c["n"]))})
+
+
+def run_callers(case):
+    """the two places that pass amounts through the conversion on behalf of users: dict_values_to_lbc (balances and deltas shown
+    by wallet_balance / account_balance, nested per account) and ExchangeRateManager.to_dewies (claim fees: an exactly written LBC
+    amount, held as a Decimal, is turned into dewies)"""
+    out = Out()
+    from lbry.wallet.dewies import dict_values_to_lbc
+    try:
+        got = dict_values_to_lbc(case["d"])
+    except Exception as e:
+        out.violate("dict:raises:%s" % type(e).__name__, "%r -> %r" % (case["d"], e))
+        return out
+
+    def walk(want, have, path):
+        if not isinstance(have, dict) or sorted(have) != sorted(want):
+            out.violate("dict:structure-differs", "%s: %r -> %r" % (path, want, have))
+            return
+        for k, v in want.items():
+            h = have[k]
+            if isinstance(v, dict):
+                out.label("dict:nested")
+                walk(v, h, path + "/" + k)
+            elif isinstance(v, int):
+                out.label("dict:neg" if v < 0 else "dict:nonneg", "dict:ge_2^53" if abs(v) >= 2 ** 53 else "dict:lt_2^53")
+                if abs(v) >= 2 ** 53 - 2000 or v < 0:
+                    out.nontrivial = True
+                if not isinstance(h, str) or not OUT_RE.fullmatch(h):
+                    out.violate("dict:amount-not-plain-decimal" + (":negative" if v < 0 else ""), "%s/%s: %r -> %r" % (path, k, v, h))
+                elif Decimal(h) * COIN != v:
+                    out.violate("dict:amount-inexact", "%s/%s: %r -> %r" % (path, k, v, h))
+            else:
+                out.check(h == v and type(h) is type(v), "dict:other-value-changed", "%s/%s: %r -> %r" % (path, k, v, h))
+    walk(case["d"], got, "")
+    # fee path
+    import lbry.wallet  # noqa: F401  (import order)
+    from lbry.extras.daemon.exchange_rate_manager import ExchangeRateManager
+    dewies_to_lbc, _ = _imports()
+    n = case["fee"]
+    s = dewies_to_lbc(n)
+    if isinstance(s, str) and OUT_RE.fullmatch(s) and Decimal(s) * COIN == n:
+        try:
+            back = ExchangeRateManager(()).to_dewies("LBC", Decimal(s))
+        except ValueError:
+            # str(Decimal) switches to exponent notation below 1e-6 LBC and the parser rejects that: rejected, not rounded
+            out.label("fee:rejected")
+            back = None
+        if back is not None:
+            out.label("fee:ge_2^53" if n >= 2 ** 53 else "fee:lt_2^53")
+            if n >= 2 ** 53 - 2000:
+                out.nontrivial = True
+            out.check(back == n, "fee:exact-lbc-amount-becomes-other-dewies" + (":ge-2^53" if n >= 2 ** 53 - 2000 else ""),
+                      "%d dewies = %s LBC -> %r" % (n, s, back))
+    return out
+
+
 PARTS = [
     Part("int_enum", None, run_int, 0, 0, quick_shards=8, thorough_shards=16, enumerate_cases=enum_ints,
          essential=("ge_2^53", "neg")),
@@ -210,4 +276,6 @@ PARTS = [
          essential=("ge_2^53", "neg")),
     Part("str_gen", lambda tier: str_case(), run_str, 4000, 30000, quick_shards=4, thorough_shards=16,
          essential=("valid", "trail_nl", "frac9", "whole11")),
+    Part("callers", callers_strategy, run_callers, 1500, 15000, quick_shards=4, thorough_shards=16,
+         essential=("dict:nested", "dict:neg", "dict:ge_2^53", "fee:ge_2^53")),
 ]
